@@ -312,6 +312,18 @@ def check_pair(ctx, comp, cfg, op, Mref, offref, want_adjoint=True):
                 ctx.violation(comp, cfg, 'derivative!=zero-pad')
         except Exception as e:
             ctx.violation(comp, cfg, 'derivative-raises:' + type(e).__name__, message=str(e)[:200])
+        # ... and an adjoint taken directly must refuse, or be the (linear) adjoint of the linear part
+        ctx.ev('adjoint-transpose')
+        try:
+            A = op.adjoint
+        except Exception:
+            return          # refusing is fine for an affine operator
+        try:
+            MA, offA = op_matrix(A)
+            if not np.allclose(MA, Mref.conj().T, atol=1e-12 * sc, rtol=0) or np.any(np.abs(offA) > 1e-13 * sc):
+                ctx.violation(comp, cfg, 'adjoint-of-affine!=transpose-of-linear-part', offset=float(np.abs(offA).max()))
+        except Exception as e:
+            ctx.violation(comp, cfg, 'adjoint-raises:' + type(e).__name__, message=str(e)[:200])
         return
     ctx.ev('adjoint-transpose')
     try:
